@@ -12,6 +12,10 @@
    signal before/between/concurrent/after, binds 127.0.0.1 / 0.0.0.0 / [::]) are validated by TLC with
    Trace_Shutdown.tla.  "run did not return", "port not re-bindable", "response truncated / missing" all surface
    as records the spec cannot explain; Python only orchestrates and reports what TLC rejected.
+   (d) "accept fails while the signal arrives" (races group, both runtimes): the harness fills its own descriptor table
+   (lowered RLIMIT_NOFILE + duplicates of /dev/null), so accept() and the wake-up connect fail with EMFILE, confirms it
+   (Accept_Return hook without a peer / own probe), signals; the table is released when run has returned (before the
+   re-bind) or when the wait was given up.  Not provoked = reduced coverage (evidence part), never a violation.
 4. self-test: corrupted logs must be rejected."""
 import concurrent.futures as cf
 import copy
@@ -38,7 +42,10 @@ SENS = [  # (cfg, deviation, kind of violation expected, name)
     ("MC_Shutdown_dev_FlagBeforeRecv.cfg", "FlagBeforeRecv", "invariant", "Inv_ServingBefore"),
     ("MC_Shutdown_dev_AbortOnStop.cfg", "AbortOnStop", "invariant", "Inv_NoTruncation"),
     ("MC_Shutdown_dev_StopDropsQueue.cfg", "StopDropsQueue", "invariant", "Inv_DispatchedKept"),
+    # Faults = {"nofd"}: accept() fails (EMFILE) and so does the wake-up connect; the flag must be looked at after a FAILED accept too
+    ("MC_Shutdown_dev_AcceptErrorsRetriedInside.cfg", "AcceptErrorsRetriedInside", "temporal", None),
 ]
+NOFD_CFG = "MC_Shutdown_nofd.cfg"   # Dev = {}, the process may run out of descriptors while run is running
 WITNESS = ["Never_ClientBeforeWake", "Never_WakeDuringDispatch", "Never_ReturnedSaturated", "Never_ReturnedDeepQueue", "Never_AcceptAfterCancel"]
 
 
@@ -260,6 +267,7 @@ def run(tier, replay):
     # the signal sent a second time (Sig_Again) nearly doubles the state space: checked on smaller configurations
     mc_cfgs.append(("MC_Shutdown_twice2.cfg" if thorough else "MC_Shutdown_twice.cfg", "accept loop/run thread fair only, signal possibly sent twice", 2))
     mc_cfgs.append(("MC_Shutdown_allfair_thorough.cfg" if thorough else "MC_Shutdown_allfair.cfg", "every process fair: drain after return", 2))
+    mc_cfgs.append((NOFD_CFG, "accept loop/run thread fair only, descriptor exhaustion (accept() and the wake-up connect fail)", 2))
     for cfg, note, w in mc_cfgs:
         jobs[("mc", cfg, note)] = pool.submit(tlc_job, "MC_Shutdown.tla", cfg, D, workers=w, coverage=True,
                                               timeout=2400, work_id="c20mc", heap="8g" if thorough else "4g",
@@ -373,6 +381,15 @@ def run(tier, replay):
                      rejected_by_tlc=sum(1 for o, _ in rej_all if o["group"] == "%s/%s" % (kind, rt)),
                      hangs=sum(1 for o in outs if o.get("hang")), not_forceable=sum(1 for o in outs if o.get("diverged")),
                      timed_waits=sum(1 for o in outs if o["verdict"].get("wait_level", 0) > 0))
+    # "accept fails while the signal arrives": in how many of these scenarios was the situation really there
+    fdsc = [o for o in everything if o.get("fd_fault")]
+    ctx.add_part("descriptor exhaustion at the signal", scenarios=len(fdsc),
+                 provoked=sum(1 for o in fdsc if o["fd_fault"] in ("hook", "probe")),
+                 confirmed_by_accept_hook=sum(1 for o in fdsc if o["fd_fault"] == "hook"),
+                 not_provoked_reduced_coverage=sum(1 for o in fdsc if o["fd_fault"] == "not-provoked"),
+                 failed_accepts_counted=sum(o.get("accept_errors", 0) for o in fdsc))
+    if fdsc and not any(o["fd_fault"] in ("hook", "probe") for o in fdsc):
+        vlib.log("[C20] descriptor exhaustion could not be provoked in any scenario: reduced coverage")
     for o in (groups[("races", "threaded")][:1] + groups[("races", "threaded")][2:3] + groups[("matrix", "tokio")][1:2] + groups[("replay", "threaded")][:1]):
         ctx.sample({"scenario": o["scenario"], "rt": o["rt"], "pool": o["nw"], "bind": o["bind"], "verdict": o["verdict"], "log": brief(o["events"])[:900]})
 
@@ -438,7 +455,8 @@ def run(tier, replay):
             ctx.add_tlc("Shutdown.tla Dev={} %s (%s)" % (cfg, x), r)
             ctx.require_tlc_ok(cfg, r)
             if r.violation is None and "allfair" not in cfg:
-                ctx.require_cover(cfg, r, [a for a in ACTIONS if (a != "Sig_Again" or "twice" in cfg) and not ("twice" in cfg and a == "Worker_Disc")])
+                ctx.require_cover(cfg, r, [a for a in ACTIONS if (a != "Sig_Again" or "twice" in cfg) and not ("twice" in cfg and a == "Worker_Disc")]
+                                  + (["Accept_Error", "Fd_Exhaust", "Fd_Recover"] if cfg == NOFD_CFG else []))
         elif kind == "sens":
             want = next(s for s in SENS if s[0] == cfg)
             ctx.add_tlc("sensitivity: Dev={%s} must violate %s" % (x, want[3] or "Live_RunReturns"), r)
@@ -466,5 +484,7 @@ def run(tier, replay):
         "bounded time = escalating waits 1 s / 4 s / 15 s; only 'did not happen' is a failure",
         "a connection accepted after the signal may be dropped without a response (DESIGN 5a)",
         "the port to bind is non-zero and the wake-up address is the first resolved address (as in the examples)",
+        "descriptor exhaustion (accept() and the wake-up connect fail with EMFILE), once begun, lasts until run has returned; "
+        "a fault that ends between the loop's flag check and its next accept() after the wake-up connect failed is not explored",
     ]
     return ctx.finish()
